@@ -159,7 +159,8 @@ pub fn check_history(names: &[String]) -> Vec<(String, String)> {
 #[derive(Clone, Debug)]
 pub struct Exec {
     pub steps: Vec<(Option<usize>, Vec<usize>, usize, String)>,
-    pub results: Vec<Vec<u8>>,
+    /// per thread: the responses to the requests it served, in order
+    pub results: Vec<Vec<Vec<u8>>>,
     pub feasible: bool,
     pub diverged: Option<String>,
 }
@@ -169,15 +170,15 @@ fn to_steps(e: &Exec) -> Vec<Step> {
 }
 
 /// one execution of the given requests (one thread each) under `prefix`, in a forked child
-pub fn execute(reqs: &[Vec<u8>], prefix: &[usize]) -> Result<Exec, String> {
-    let reqs2: Vec<Vec<u8>> = reqs.to_vec();
+pub fn execute(reqs: &[Vec<Vec<u8>>], prefix: &[usize]) -> Result<Exec, String> {
+    let reqs2: Vec<Vec<Vec<u8>>> = reqs.to_vec();
     let prefix2 = prefix.to_vec();
     let out = fork_run(move || {
-        let bodies: Vec<Box<dyn FnOnce() -> Vec<u8> + Send + 'static>> = reqs2.iter().cloned().map(|r| Box::new(move || serve(&r)) as Box<dyn FnOnce() -> Vec<u8> + Send + 'static>).collect();
+        let bodies: Vec<Box<dyn FnOnce() -> Vec<Vec<u8>> + Send + 'static>> = reqs2.iter().cloned().map(|rs| Box::new(move || rs.iter().map(|r| serve(r)).collect::<Vec<_>>()) as Box<dyn FnOnce() -> Vec<Vec<u8>> + Send + 'static>).collect();
         let x = run_schedule(bodies, &prefix2, Duration::from_secs(5));
         let v = json!({
             "steps": x.steps.iter().map(|s| json!([s.running, s.enabled, s.chosen, s.label])).collect::<Vec<_>>(),
-            "results": x.results.iter().map(|r| r.as_ref().map(|b| hex(b))).collect::<Vec<_>>(),
+            "results": x.results.iter().map(|r| r.as_ref().map(|bs| bs.iter().map(|b| hex(b)).collect::<Vec<_>>())).collect::<Vec<_>>(),
             "feasible": x.feasible,
             "diverged": x.diverged,
         });
@@ -186,7 +187,7 @@ pub fn execute(reqs: &[Vec<u8>], prefix: &[usize]) -> Result<Exec, String> {
     let v: Value = serde_json::from_slice(&out).map_err(|e| format!("unreadable child report: {}", e))?;
     Ok(Exec {
         steps: v["steps"].as_array().map(|a| a.iter().map(|s| (s[0].as_u64().map(|x| x as usize), s[1].as_array().map(|e| e.iter().filter_map(|x| x.as_u64().map(|y| y as usize)).collect()).unwrap_or_default(), s[2].as_u64().unwrap_or(0) as usize, s[3].as_str().unwrap_or("").to_string())).collect()).unwrap_or_default(),
-        results: v["results"].as_array().map(|a| a.iter().map(|r| r.as_str().map(unhex).unwrap_or_else(|| b"PANIC".to_vec())).collect()).unwrap_or_default(),
+        results: v["results"].as_array().map(|a| a.iter().map(|r| r.as_array().map(|bs| bs.iter().map(|b| unhex(b.as_str().unwrap_or(""))).collect()).unwrap_or_else(|| vec![b"PANIC".to_vec()])).collect()).unwrap_or_default(),
         feasible: v["feasible"].as_bool().unwrap_or(false),
         diverged: v["diverged"].as_str().map(|s| s.to_string()),
     })
@@ -202,28 +203,51 @@ pub struct Explored {
     pub distinct_orders: usize,
 }
 
-pub fn judge_exec(names: &[String], solos: &[Vec<u8>], x: &Exec) -> Option<(String, String)> {
-    for (i, got) in x.results.iter().enumerate() {
-        let (g, w) = (canon(&names[i], got), canon(&names[i], &solos[i]));
-        if g != w {
-            let others: Vec<&str> = names.iter().enumerate().filter(|(j, _)| *j != i).map(|(_, s)| s.as_str()).collect();
-            return Some((
-                format!("C08:interleaving:response-differs-from-solo:{}:{}", names[i], diff_kind(&names[i], &g, &w)),
-                format!("{} served concurrently with {:?}: got {:?} alone {:?}", names[i], others, crate::engine::show(&got[..got.len().min(160)]), crate::engine::show(&solos[i][..solos[i].len().min(160)])),
-            ));
+fn requests_of(names: &[String]) -> Vec<Vec<(String, Vec<u8>)>> {
+    let alpha = alphabet();
+    names.iter().map(|entry| entry.split('+').map(|n| (n.to_string(), alpha.iter().find(|(a, _)| *a == n).map(|(_, r)| r.clone()).unwrap_or_default())).collect()).collect()
+}
+
+pub fn judge_exec(names: &[String], solos: &std::collections::HashMap<String, Vec<u8>>, x: &Exec) -> Option<(String, String)> {
+    let reqs = requests_of(names);
+    for (t, got_list) in x.results.iter().enumerate() {
+        for (k, got) in got_list.iter().enumerate() {
+            let name = reqs.get(t).and_then(|v| v.get(k)).map(|(n, _)| n.clone()).unwrap_or_default();
+            let want = solos.get(&name).cloned().unwrap_or_default();
+            let (g, w) = (canon(&name, got), canon(&name, &want));
+            if g != w {
+                return Some((
+                    format!("C08:interleaving:response-differs-from-solo:{}:{}", name, diff_kind(&name, &g, &w)),
+                    format!("{} (thread {}, request {}) served concurrently with {:?}: got {:?} alone {:?}", name, t, k, names, crate::engine::show(&got[..got.len().min(160)]), crate::engine::show(&want[..want.len().min(160)])),
+                ));
+            }
+            let errs = crate::props::c10::monitor(got);
+            if !errs.is_empty() && !got.starts_with(b"PANIC") {
+                return Some((format!("C08:interleaving:hardening-headers:{}", errs[0]), format!("{} (thread {}, request {}) in {:?}: {:?}", name, t, k, names, errs)));
+            }
         }
-        let errs = crate::props::c10::monitor(got);
-        if !errs.is_empty() && !got.starts_with(b"PANIC") {
-            return Some((format!("C08:interleaving:hardening-headers:{}", errs[0]), format!("{}: {:?}", names[i], errs)));
+        if got_list.len() != reqs.get(t).map(|v| v.len()).unwrap_or(0) {
+            return Some(("C08:interleaving:thread-panicked".to_string(), format!("thread {} of {:?} did not return its responses", t, names)));
         }
     }
     None
 }
 
+fn solos_of(names: &[String]) -> Result<std::collections::HashMap<String, Vec<u8>>, String> {
+    let mut m = std::collections::HashMap::new();
+    for seq in requests_of(names) {
+        for (n, r) in seq {
+            if !m.contains_key(&n) {
+                m.insert(n.clone(), solo(&r)?);
+            }
+        }
+    }
+    Ok(m)
+}
+
 pub fn explore(names: &[String], bound: usize, max_exec: u64) -> Result<Explored, String> {
-    let alpha = alphabet();
-    let reqs: Vec<Vec<u8>> = names.iter().map(|n| alpha.iter().find(|(a, _)| a == n).map(|(_, r)| r.clone()).unwrap_or_default()).collect();
-    let solos: Vec<Vec<u8>> = reqs.iter().map(|r| solo(r)).collect::<Result<Vec<_>, _>>()?;
+    let reqs: Vec<Vec<Vec<u8>>> = requests_of(names).into_iter().map(|seq| seq.into_iter().map(|(_, r)| r).collect()).collect();
+    let solos = solos_of(names)?;
     let mut ex = Explored { executions: 0, transitions: 0, infeasible: 0, max_steps: 0, capped: false, fails: vec![], distinct_orders: 0 };
     let mut orders: std::collections::HashSet<Vec<usize>> = Default::default();
     let mut stack: Vec<Vec<usize>> = vec![vec![]];
@@ -240,9 +264,8 @@ pub fn explore(names: &[String], bound: usize, max_exec: u64) -> Result<Explored
         if first {
             // determinism: the same schedule twice gives the same observation
             let y = execute(&reqs, &prefix)?;
-            let a: Vec<Vec<u8>> = x.results.iter().enumerate().map(|(i, r)| canon(&names[i], r)).collect();
-            let b: Vec<Vec<u8>> = y.results.iter().enumerate().map(|(i, r)| canon(&names[i], r)).collect();
-            if a != b || x.steps.len() != y.steps.len() {
+            let flat = |e: &Exec| -> Vec<Vec<u8>> { e.results.iter().flatten().map(|r| mask_timestamps(r)).map(|r| { let mut l: Vec<&[u8]> = r.split(|c| *c == b'\n').collect(); l.sort(); l.concat() }).collect() };
+            if flat(&x) != flat(&y) || x.steps.len() != y.steps.len() {
                 return Err("the same schedule executed twice gave different observations".into());
             }
             first = false;
@@ -293,6 +316,7 @@ pub fn run(ctx: &mut Ctx) {
     let names: Vec<String> = alpha.iter().map(|(n, _)| n.to_string()).collect();
     ctx.bound("request_alphabet", json!(names));
     ctx.bound("histories", json!(if thorough { "every ordered pair and every ordered triple, each in a fresh process, compared with the solo responses" } else { "every ordered pair; every ordered triple over the 8 state-prone requests" }));
+    ctx.bound("interleavings_with_follow_up", json!("two concurrent requests of a 5 (8 in thorough) element subset, one of the two threads then serves a third request (get-file or not-found): every schedule with <= 2 preemptions"));
     ctx.bound("interleavings", json!(if thorough { "every unordered pair (incl. the same request twice): every schedule with <= 3 preemptions; every unordered triple of 6 requests: <= 2 preemptions" } else { "every unordered pair (incl. the same request twice): every schedule with <= 2 preemptions" }));
     // (1) histories
     let mut hist = |ctx: &mut Ctx, h: Vec<String>| {
@@ -360,6 +384,16 @@ pub fn run(ctx: &mut Ctx) {
             inter(ctx, vec![a.clone(), b.clone()], bound);
         }
     }
+    // two concurrent requests and a third one served afterwards by one of the two threads:
+    // what a race leaves behind only shows in a later response
+    let first: Vec<&str> = if thorough { vec!["get-file", "form-post-short", "link-small", "options-preflight", "not-found", "bad-request", "get-with-origin", "builtin-index"] } else { vec!["get-file", "form-post-short", "link-small", "not-found", "bad-request"] };
+    for (i, a) in first.iter().enumerate() {
+        for b in first.iter().skip(i) {
+            for probe in ["get-file", "not-found"] {
+                inter(ctx, vec![format!("{}+{}", a, probe), b.to_string()], 2);
+            }
+        }
+    }
     if thorough {
         let six: Vec<String> = ["get-file", "form-post-long", "link-small", "link-big", "options-preflight", "bad-request"].iter().map(|s| s.to_string()).collect();
         for (i, a) in six.iter().enumerate() {
@@ -385,11 +419,9 @@ pub fn replay(v: &Value) -> Vec<Failure> {
             out.push(Failure { signature, case: v.clone(), detail });
         }
     } else {
-        let alpha = alphabet();
-        let reqs: Vec<Vec<u8>> = names.iter().map(|n| alpha.iter().find(|(a, _)| a == n).map(|(_, r)| r.clone()).unwrap_or_default()).collect();
+        let reqs: Vec<Vec<Vec<u8>>> = requests_of(&names).into_iter().map(|seq| seq.into_iter().map(|(_, r)| r).collect()).collect();
         let schedule: Vec<usize> = v["schedule"].as_array().map(|a| a.iter().filter_map(|x| x.as_u64().map(|y| y as usize)).collect()).unwrap_or_default();
-        let solos: Result<Vec<Vec<u8>>, String> = reqs.iter().map(|r| solo(r)).collect();
-        if let Ok(solos) = solos {
+        if let Ok(solos) = solos_of(&names) {
             // replay the recorded schedule twice: identical observations, then judge
             let a = execute(&reqs, &schedule);
             let b = execute(&reqs, &schedule);
